@@ -769,7 +769,7 @@ func lowerBound(p *Prog, v ssa.Value, depth int) (int64, bool) {
 			}
 			for _, g := range impls {
 				for _, ret := range returnsOf(g) {
-					k, ok := constInt(ret.Results[0])
+					k, ok := constInt(retResult(ret, 0))
 					if !ok {
 						return 0, false
 					}
@@ -784,7 +784,7 @@ func lowerBound(p *Prog, v ssa.Value, depth int) (int64, bool) {
 			// local closure returning a counted value
 			min := int64(1 << 40)
 			for _, ret := range returnsOf(g) {
-				b, ok := lowerBound(p, ret.Results[0], depth+1)
+				b, ok := lowerBound(p, retResult(ret, 0), depth+1)
 				if !ok {
 					return 0, false
 				}
@@ -1008,7 +1008,7 @@ func ruleP06Shape(p *Prog, r *Report) {
 	}
 	var blocks []*ssa.BasicBlock
 	for _, idx := range []int{0, 1, 3} {
-		apps, leaves := accWeb(rets[0].Results[idx])
+		apps, leaves := accWeb(retResult(rets[0], idx))
 		ok := len(apps) == 1
 		for _, l := range leaves {
 			if !isNilConst(l) {
@@ -1032,22 +1032,22 @@ func ruleP06Shape(p *Prog, r *Report) {
 			hasErr := resultOf(cs[0], 4)
 			for i, ret := range returnsOf(sp) {
 				key := fmt.Sprintf("serial:return#%d", i)
-				if isNilConst(ret.Results[2]) {
+				if isNilConst(retResult(ret, 2)) {
 					okG := false
 					for _, g := range guardsOf(ret.Block()) {
 						if hasErr != nil && strip(g.Cond) == hasErr && !g.Pol {
 							okG = true
 						}
 					}
-					r.check(okG && sameValue(ret.Results[0], resultOf(cs[0], 0)) && sameValue(ret.Results[1], resultOf(cs[0], 1)), "P01-norecord", key, p.instrPos(ret), "records and blocks are returned only when no block had errors", "records can be returned although a block had errors")
+					r.check(okG && sameValue(retResult(ret, 0), resultOf(cs[0], 0)) && sameValue(retResult(ret, 1), resultOf(cs[0], 1)), "P01-norecord", key, p.instrPos(ret), "records and blocks are returned only when no block had errors", "records can be returned although a block had errors")
 				} else {
-					okE := isNilConst(ret.Results[0]) && isNilConst(ret.Results[1])
+					okE := isNilConst(retResult(ret, 0)) && isNilConst(retResult(ret, 1))
 					r.check(okE, "P01-norecord", key, p.instrPos(ret), "errors -> no records, no blocks", "errors are returned together with records")
 				}
 			}
 			// hasErrors is set exactly when an error list is non-nil
 			okFlag := false
-			if ph, ok := strip(rets[0].Results[4]).(*ssa.Phi); ok {
+			if ph, ok := strip(retResult(rets[0], 4)).(*ssa.Phi); ok {
 				_, ins := phiCycle(ph)
 				okFlag = true
 				sawTrue := false
@@ -1076,8 +1076,8 @@ func ruleP06Shape(p *Prog, r *Report) {
 	if r.anchorFn(rule, pp, "ParallelBatchParser.Parse") {
 		var vals, blks ssa.Value
 		for _, ret := range returnsOf(pp) {
-			if !isNilConst(ret.Results[0]) {
-				vals, blks = ret.Results[0], ret.Results[1]
+			if !isNilConst(retResult(ret, 0)) {
+				vals, blks = retResult(ret, 0), retResult(ret, 1)
 			}
 		}
 		if vals == nil {
